@@ -1,3 +1,602 @@
 import Pun.Lemmas.Hier
+import Pun.Props.C01
+/-!
+# C07 — uncertain-number hierarchy: degenerate operands reduce to the simpler arithmetic
+
+All statements are about the functions the model driver executes (`Pun.Hier.evalOp`, `method`,
+`spec`, `convert`, built on `Pun.PBox.binop`) for ANY number of steps `n > 0` and all rationals.
+
+* `embed_op` (+ `embed_op_f/p/o/i`): two embedded intervals combined by ANY of the four operations
+  under ANY of the four dependencies give the constant p-box of the C01 interval result
+  (`Pun.Arith.binop`), every sign case — including the Frechet product of zero-straddling
+  intervals (naive ∩ Balch);  `ivl_expr_embeds` states it for the Python expression
+  `Interval op Interval` against the converted-first expression;
+* `embed_real`, `real_expr_embeds`: point operands give the real-number result;
+* `ivl_dist_shift`, `dist_ivl_shift`, `ivl_dist_scale`: interval ± precise distribution is the quantile
+  list shifted by the interval, interval × positive distribution is it scaled;
+* `evalOp_route`: the dispatch graph as a finite table over the 5 × 5 kinds;
+* `fwd_agrees`, `refl_add_agrees`, `refl_sub_agrees`: the mixed expression equals the expression with
+  every operand converted first.  The full statement is `C07RouteStatement`; what is proved is
+  `route_agrees_partial` (missing: reflected product / quotient `Interval * P`, `Interval / P`, number
+  operands, dependency `i` in the reflected sum — those are covered by the tie and the oracle only).
+-/
+set_option linter.unusedSimpArgs false
+set_option linter.unusedVariables false
 namespace Pun.Hier
+open Pun Pun.PBox
+
+/-! ## the C01 interval model on two scalar intervals -/
+
+theorem arith_add (a b c d : Rat) (hab : a ≤ b) (hcd : c ≤ d) :
+    Arith.binop .add (.I a b) (.I c d) = .ok (.I (a + c) (b + d)) := by
+  have h : a + c ≤ b + d := by linarith
+  simp [Arith.binop, Arith.opdIV, Arith.forward, Arith.IV.ofI, Arith.bzip, Arith.bshape, Arith.bget, Arith.mkIV, h,
+    bind, Except.bind, pure, Except.pure]
+
+theorem arith_sub (a b c d : Rat) (hab : a ≤ b) (hcd : c ≤ d) :
+    Arith.binop .sub (.I a b) (.I c d) = .ok (.I (a - d) (b - c)) := by
+  have h : a - d ≤ b - c := by linarith
+  simp [Arith.binop, Arith.opdIV, Arith.forward, Arith.IV.ofI, Arith.bzip, Arith.bshape, Arith.bget, Arith.mkIV, h,
+    bind, Except.bind, pure, Except.pure]
+
+theorem arith_mul (a b c d : Rat) (hab : a ≤ b) (hcd : c ≤ d) :
+    Arith.binop .mul (.I a b) (.I c d) =
+      .ok (.I (min4 (a*c) (a*d) (b*c) (b*d)) (max4 (a*c) (a*d) (b*c) (b*d))) := by
+  have h := min4_le_max4 (a*c) (a*d) (b*c) (b*d)
+  rw [min4_arith, max4_arith] at h ⊢
+  simp [Arith.binop, Arith.opdIV, Arith.forward, Arith.IV.ofI, Arith.multiply, Arith.IV.scalar, Arith.bshape,
+    Arith.finishTable, Arith.mulTable_exact a b c d hab hcd, Arith.mkIV, h, bind, Except.bind, pure, Except.pure]
+
+theorem arith_div_zero (a b c d : Rat) (h0 : c ≤ 0 ∧ 0 ≤ d) :
+    Arith.binop .div (.I a b) (.I c d) = .error .ZeroDivision := by
+  simp [Arith.binop, Arith.opdIV, Arith.forward, Arith.IV.ofI, Arith.divide, Arith.straddles, h0.1, h0.2,
+    bind, Except.bind]
+
+theorem arith_div (a b c d : Rat) (hab : a ≤ b) (hcd : c ≤ d) (h0 : 0 < c ∨ d < 0) :
+    Arith.binop .div (.I a b) (.I c d) =
+      .ok (.I (min4 (a*(1/d)) (a*(1/c)) (b*(1/d)) (b*(1/c))) (max4 (a*(1/d)) (a*(1/c)) (b*(1/d)) (b*(1/c)))) := by
+  obtain ⟨l, h, htab, hs, ⟨x, y, hx1, hx2, hy1, hy2, hlo⟩, ⟨x', y', hx1', hx2', hy1', hy2', hhi⟩⟩ :=
+    Arith.divTable_sound a b c d hab hcd h0
+  have hy0 : ∀ y, c ≤ y → y ≤ d → (1 / d ≤ 1 / y ∧ 1 / y ≤ 1 / c) := by
+    intro y h1 h2
+    constructor
+    · apply one_div_anti y d h2
+      rcases h0 with h | h
+      · left; linarith
+      · right; exact h
+    · apply one_div_anti c y h1
+      rcases h0 with h | h
+      · left; exact h
+      · right; linarith
+  have el : l = min4 (a*(1/d)) (a*(1/c)) (b*(1/d)) (b*(1/c)) := by
+    rw [min4_arith]
+    apply le_antisymm
+    · unfold Arith.min4
+      have c1 := (hs a d (le_refl a) hab hcd (le_refl d)).1
+      have c2 := (hs a c (le_refl a) hab (le_refl c) hcd).1
+      have c3 := (hs b d hab (le_refl b) hcd (le_refl d)).1
+      have c4 := (hs b c hab (le_refl b) (le_refl c) hcd).1
+      rw [div_eq_mul_one_div] at c1 c2 c3 c4
+      exact le_min (le_min c1 c2) (le_min c3 c4)
+    · rw [← hlo, div_eq_mul_one_div x y]
+      exact (Arith.mul_hull a b (1/d) (1/c) x (1/y) hx1 hx2 (hy0 y hy1 hy2).1 (hy0 y hy1 hy2).2).1
+  have eh : h = max4 (a*(1/d)) (a*(1/c)) (b*(1/d)) (b*(1/c)) := by
+    rw [max4_arith]
+    apply le_antisymm
+    · rw [← hhi, div_eq_mul_one_div x' y']
+      exact (Arith.mul_hull a b (1/d) (1/c) x' (1/y') hx1' hx2' (hy0 y' hy1' hy2').1 (hy0 y' hy1' hy2').2).2
+    · unfold Arith.max4
+      have c1 := (hs a d (le_refl a) hab hcd (le_refl d)).2
+      have c2 := (hs a c (le_refl a) hab (le_refl c) hcd).2
+      have c3 := (hs b d hab (le_refl b) hcd (le_refl d)).2
+      have c4 := (hs b c hab (le_refl b) (le_refl c) hcd).2
+      rw [div_eq_mul_one_div] at c1 c2 c3 c4
+      exact max_le (max_le c1 c2) (max_le c3 c4)
+  have hlh : l ≤ h := le_trans (hs a c (le_refl a) hab (le_refl c) hcd).1 (hs a c (le_refl a) hab (le_refl c) hcd).2
+  have hstr : ¬ (c ≤ 0 ∧ 0 ≤ d) := by
+    rintro ⟨h1, h2⟩; rcases h0 with h | h <;> linarith
+  rw [← el, ← eh]
+  simp [Arith.binop, Arith.opdIV, Arith.forward, Arith.IV.ofI, Arith.divide, Arith.straddles, hstr, Arith.IV.scalar,
+    Arith.bshape, Arith.finishTable, htab, Arith.unopt, Arith.mkIV, hlh, bind, Except.bind, pure, Except.pure]
+
+
+/-! ## ★ embedded intervals -/
+
+/-- **Interval operands under any dependency give the interval-arithmetic result as a constant
+p-box**: whenever the C01 model returns `[lo,hi]` for `[a,b] op [c,d]`, the p-box operation on the
+embedded operands returns the embedding of `[lo,hi]` — all four operations, all four dependencies,
+every sign. -/
+theorem embed_op (n : Nat) (hn : 0 < n) (dep : Dep) (hd : dep ≠ .unknown) (o : Op)
+    (a b c d lo hi : Rat) (hab : a ≤ b) (hcd : c ≤ d)
+    (h : Arith.binop (toArith o) (.I a b) (.I c d) = .ok (.I lo hi)) :
+    binop n o dep (ofIvl n a b) (ofIvl n c d) = .ok (ofIvl n lo hi) := by
+  cases o with
+  | add =>
+    rw [toArith, arith_add a b c d hab hcd] at h
+    injection h with h; injection h with h1 h2; subst h1; subst h2
+    exact add_ofIvl n dep hd a b c d hn hab hcd
+  | sub =>
+    rw [toArith, arith_sub a b c d hab hcd] at h
+    injection h with h; injection h with h1 h2; subst h1; subst h2
+    exact sub_ofIvl n dep hd a b c d hn hab hcd
+  | mul =>
+    rw [toArith, arith_mul a b c d hab hcd] at h
+    injection h with h; injection h with h1 h2; subst h1; subst h2
+    exact mul_ofIvl n dep hd a b c d hn hab hcd
+  | div =>
+    by_cases hz : c ≤ 0 ∧ 0 ≤ d
+    · rw [toArith, arith_div_zero a b c d hz] at h; cases h
+    · have h0 : 0 < c ∨ d < 0 := by
+        by_cases hc : 0 < c
+        · exact Or.inl hc
+        · right; by_contra hd'; exact hz ⟨not_lt.mp hc, not_lt.mp hd'⟩
+      rw [toArith, arith_div a b c d hab hcd h0] at h
+      injection h with h; injection h with h1 h2; subst h1; subst h2
+      exact div_ofIvl n dep hd a b c d hn hab hcd h0
+
+theorem embed_op_f (n : Nat) (hn : 0 < n) (o : Op) (a b c d lo hi : Rat) (hab : a ≤ b) (hcd : c ≤ d)
+    (h : Arith.binop (toArith o) (.I a b) (.I c d) = .ok (.I lo hi)) :
+    binop n o .f (ofIvl n a b) (ofIvl n c d) = .ok (ofIvl n lo hi) :=
+  embed_op n hn .f (by decide) o a b c d lo hi hab hcd h
+
+theorem embed_op_p (n : Nat) (hn : 0 < n) (o : Op) (a b c d lo hi : Rat) (hab : a ≤ b) (hcd : c ≤ d)
+    (h : Arith.binop (toArith o) (.I a b) (.I c d) = .ok (.I lo hi)) :
+    binop n o .p (ofIvl n a b) (ofIvl n c d) = .ok (ofIvl n lo hi) :=
+  embed_op n hn .p (by decide) o a b c d lo hi hab hcd h
+
+theorem embed_op_o (n : Nat) (hn : 0 < n) (o : Op) (a b c d lo hi : Rat) (hab : a ≤ b) (hcd : c ≤ d)
+    (h : Arith.binop (toArith o) (.I a b) (.I c d) = .ok (.I lo hi)) :
+    binop n o .o (ofIvl n a b) (ofIvl n c d) = .ok (ofIvl n lo hi) :=
+  embed_op n hn .o (by decide) o a b c d lo hi hab hcd h
+
+theorem embed_op_i (n : Nat) (hn : 0 < n) (o : Op) (a b c d lo hi : Rat) (hab : a ≤ b) (hcd : c ≤ d)
+    (h : Arith.binop (toArith o) (.I a b) (.I c d) = .ok (.I lo hi)) :
+    binop n o .i (ofIvl n a b) (ofIvl n c d) = .ok (ofIvl n lo hi) :=
+  embed_op n hn .i (by decide) o a b c d lo hi hab hcd h
+
+/-- the interval model answers every valid pair (division: divisor without zero), so `embed_op` is not vacuous -/
+theorem arith_total (o : Op) (a b c d : Rat) (hab : a ≤ b) (hcd : c ≤ d) (h0 : o = .div → (0 < c ∨ d < 0)) :
+    ∃ lo hi, Arith.binop (toArith o) (.I a b) (.I c d) = .ok (.I lo hi) := by
+  cases o with
+  | add => exact ⟨_, _, arith_add a b c d hab hcd⟩
+  | sub => exact ⟨_, _, arith_sub a b c d hab hcd⟩
+  | mul => exact ⟨_, _, arith_mul a b c d hab hcd⟩
+  | div => exact ⟨_, _, arith_div a b c d hab hcd (h0 rfl)⟩
+
+example : binop 3 .mul .f (ofIvl 3 (-1) 2) (ofIvl 3 (-3) 4) = .ok (ofIvl 3 (-6) 8) := by
+  apply embed_op_f 3 (by decide) .mul (-1) 2 (-3) 4 (-6) 8 (by norm_num) (by norm_num)
+  rw [toArith, arith_mul _ _ _ _ (by norm_num) (by norm_num)]
+  norm_num [min4, max4]
+
+/-- the Python expression `Interval op Interval` and the same expression with both operands converted
+to p-boxes first (any ambient dependency): the second is the embedding of the first -/
+theorem ivl_expr_embeds (n : Nat) (hn : 0 < n) (dep : Dep) (hd : dep ≠ .unknown) (o : Op)
+    (a b c d lo hi : Rat) (hab : a ≤ b) (hcd : c ≤ d)
+    (h : evalOp n dep o (.ivl a b) (.ivl c d) = .ok (.ivl lo hi)) :
+    spec n dep o (.ivl a b) (.ivl c d) = .ok (ofIvl n lo hi) := by
+  have h' : Arith.binop (toArith o) (.I a b) (.I c d) = .ok (.I lo hi) := by
+    simp only [evalOp, opdArith, lowOp] at h
+    generalize Arith.binop (toArith o) (.I a b) (.I c d) = r at h ⊢
+    match r, h with
+    | .ok (.I x y), h => simp only [resOfArith] at h; injection h with h; injection h with h1 h2; rw [h1, h2]
+    | .ok (.N x), h => simp [resOfArith] at h
+  simp only [spec, convert, convertPbox]
+  rw [ivlToPbox_eq n a b hn hab, ok_bind, ivlToPbox_eq n c d hn hcd, ok_bind]
+  exact embed_op n hn dep hd o a b c d lo hi hab hcd h'
+
+/-! ## ★ point-valued operands -/
+
+theorem min4_self (x : Rat) : min4 x x x x = x := by simp [min4]
+theorem max4_self (x : Rat) : max4 x x x x = x := by simp [max4]
+
+/-- **Point-valued operands give the real-number result**: numbers embedded as p-boxes
+(`operation.convert`) combined under any dependency give the embedding of the Python result -/
+theorem embed_real (n : Nat) (hn : 0 < n) (dep : Dep) (hd : dep ≠ .unknown) (o : Op) (x y z : Rat)
+    (h : native o x y = .ok (.num z)) :
+    binop n o dep (ofReal n x) (ofReal n y) = .ok (ofReal n z) := by
+  unfold ofReal
+  cases o with
+  | add =>
+    simp only [native] at h; injection h with h; injection h with h; subst h
+    exact add_ofIvl n dep hd x x y y hn (le_refl x) (le_refl y)
+  | sub =>
+    simp only [native] at h; injection h with h; injection h with h; subst h
+    exact sub_ofIvl n dep hd x x y y hn (le_refl x) (le_refl y)
+  | mul =>
+    simp only [native] at h; injection h with h; injection h with h; subst h
+    have := mul_ofIvl n dep hd x x y y hn (le_refl x) (le_refl y)
+    rwa [min4_self, max4_self] at this
+  | div =>
+    simp only [native] at h
+    by_cases hy : y = 0
+    · simp [hy] at h
+    · simp only [hy, if_false] at h; injection h with h; injection h with h; subst h
+      have h0 : 0 < y ∨ y < 0 := by
+        rcases lt_trichotomy y 0 with h | h | h
+        · exact Or.inr h
+        · exact absurd h hy
+        · exact Or.inl h
+      have := div_ofIvl n dep hd x x y y hn (le_refl x) (le_refl y) h0
+      rwa [min4_self, max4_self, ← div_eq_mul_one_div] at this
+
+/-- the Python expression on two numbers and the converted-first expression -/
+theorem real_expr_embeds (n : Nat) (hn : 0 < n) (dep : Dep) (hd : dep ≠ .unknown) (o : Op) (x y z : Rat)
+    (h : evalOp n dep o (.num x) (.num y) = .ok (.num z)) :
+    spec n dep o (.num x) (.num y) = .ok (ofReal n z) := by
+  simp only [evalOp, opdArith, lowOp] at h
+  simp only [spec, convert]
+  rw [ivlToPbox_eq n x x hn (le_refl x), ok_bind, ivlToPbox_eq n y y hn (le_refl y), ok_bind]
+  exact embed_real n hn dep hd o x y z h
+
+example : binop 4 .div .i (ofReal 4 3) (ofReal 4 (-2)) = .ok (ofReal 4 (-3/2)) :=
+  embed_real 4 (by decide) .i (by decide) .div 3 (-2) (-3/2) (by norm_num [native])
+
+/-- division of a number by zero raises, as in Python -/
+theorem real_div_zero (n : Nat) (dep : Dep) (x : Rat) :
+    evalOp n dep .div (.num x) (.num 0) = .error .ZeroDivision := by
+  simp [evalOp, opdArith, lowOp, native]
+
+/-! ## ★ interval with a precise distribution: shifted / scaled quantiles -/
+
+/-- **Interval + precise distribution** (constant on the left: the converted-first expression), under
+Frechet, perfect or opposite dependence: the quantile list shifted by the interval -/
+theorem ivl_dist_shift (q : List Rat) (hq : q.Pairwise (· ≤ ·)) (a b : Rat) (hab : a ≤ b) (dep : Dep)
+    (hd : dep = .f ∨ dep = .p ∨ dep = .o) :
+    add q.length dep (ofIvl q.length a b) (ofDist q) = .ok ⟨q.map (a + ·), q.map (b + ·)⟩ :=
+  add_const_left q.length dep hd a b hab (ofDist q) (wf_ofDist q hq)
+
+/-- the same with the distribution on the left (what `Interval + Distribution` executes through the
+reflected operator, and `Distribution + Interval` directly) -/
+theorem dist_ivl_shift (q : List Rat) (hq : q.Pairwise (· ≤ ·)) (a b : Rat) (hab : a ≤ b) (dep : Dep)
+    (hd : dep = .f ∨ dep = .p ∨ dep = .o) :
+    add q.length dep (ofDist q) (ofIvl q.length a b) = .ok ⟨q.map (a + ·), q.map (b + ·)⟩ :=
+  add_const_right q.length dep hd a b hab (ofDist q) (wf_ofDist q hq)
+
+/-- the Python expressions `Interval + Distribution` and `Distribution + Interval` -/
+theorem ivl_plus_dist_expr (q : List Rat) (hq : q.Pairwise (· ≤ ·)) (hn : 0 < q.length) (a b : Rat) (hab : a ≤ b)
+    (dep : Dep) (hd : dep = .f ∨ dep = .p ∨ dep = .o) :
+    evalOp q.length dep .add (.ivl a b) (.dist q) = .ok (.pbox ⟨q.map (a + ·), q.map (b + ·)⟩) ∧
+    evalOp q.length dep .add (.dist q) (.ivl a b) = .ok (.pbox ⟨q.map (a + ·), q.map (b + ·)⟩) := by
+  constructor
+  · simp only [evalOp, opdArith, convertPbox, ok_bind, reflected, pboxAdd]
+    rw [ivlToPbox_eq _ a b hn hab, ok_bind, dist_ivl_shift q hq a b hab dep hd]; rfl
+  · simp only [evalOp, opdArith, convertPbox, ok_bind, method, pboxAdd]
+    rw [ivlToPbox_eq _ a b hn hab, ok_bind, dist_ivl_shift q hq a b hab dep hd]; rfl
+
+/-- `Distribution - Interval`: shifted by `[-b,-a]` -/
+theorem dist_minus_ivl_expr (q : List Rat) (hq : q.Pairwise (· ≤ ·)) (hn : 0 < q.length) (a b : Rat) (hab : a ≤ b)
+    (dep : Dep) (hd : dep = .f ∨ dep = .p ∨ dep = .o) :
+    evalOp q.length dep .sub (.dist q) (.ivl a b) = .ok (.pbox ⟨q.map (-b + ·), q.map (-a + ·)⟩) := by
+  have hd' : swapPO dep = .f ∨ swapPO dep = .p ∨ swapPO dep = .o := by
+    rcases hd with h | h | h <;> subst h <;> simp [swapPO]
+  simp only [evalOp, opdArith, convertPbox, ok_bind, method, pboxSub, negOpd, pboxAdd]
+  rw [ivlToPbox_eq _ (-b) (-a) hn (by linarith), ok_bind, dist_ivl_shift q hq (-b) (-a) (by linarith) _ hd']; rfl
+
+example : add 3 .f (ofIvl 3 1 2) (ofDist [0, 5, 7]) = .ok ⟨[1, 6, 8], [2, 7, 9]⟩ := by
+  have := ivl_dist_shift [0, 5, 7] (by decide) 1 2 (by norm_num) .f (Or.inl rfl)
+  norm_num at this; exact this
+
+theorem zip4_map (f : Rat → Rat → Rat → Rat → Rat) (g1 g2 g3 g4 : Rat → Rat) : ∀ (q : List Rat),
+    zip4 f (q.map g1) (q.map g2) (q.map g3) (q.map g4) = q.map (fun v => f (g1 v) (g2 v) (g3 v) (g4 v))
+  | [] => rfl
+  | x :: t => by simp [zip4, zip4_map f g1 g2 g3 g4 t]
+
+theorem wf_scale (q : List Rat) (hq : q.Pairwise (· ≤ ·)) (hpos : ∀ v ∈ q, 0 < v) (a b : Rat) (ha : 0 ≤ a) (hab : a ≤ b) :
+    WF q.length ⟨q.map (a * ·), q.map (b * ·)⟩ where
+  llen := by simp
+  rlen := by simp
+  lsorted := List.Pairwise.map _ (fun x y hxy => mul_le_mul_of_nonneg_left hxy ha) hq
+  rsorted := List.Pairwise.map _ (fun x y hxy => mul_le_mul_of_nonneg_left hxy (le_trans ha hab)) hq
+  le := by
+    rw [List.forall₂_map_left_iff, List.forall₂_map_right_iff]
+    have : ∀ (l : List Rat), (∀ v ∈ l, 0 < v) → List.Forall₂ (fun c d => a * c ≤ b * d) l l := by
+      intro l
+      induction l with
+      | nil => intro _; exact List.Forall₂.nil
+      | cons x t ih =>
+        intro h
+        exact List.Forall₂.cons (mul_le_mul_of_nonneg_right hab (le_of_lt (h x (by simp))))
+          (ih (fun v hv => h v (by simp [hv])))
+    exact this q hpos
+
+/-- **Interval × precise positive distribution** (`0 ≤ a`), Frechet or perfect dependence: the quantile
+list scaled by the interval -/
+theorem ivl_dist_scale (q : List Rat) (hq : q.Pairwise (· ≤ ·)) (hpos : ∀ v ∈ q, 0 < v) (hne : q ≠ [])
+    (a b : Rat) (ha : 0 ≤ a) (hab : a ≤ b) (hb : 0 < b) (dep : Dep) (hd : dep = .f ∨ dep = .p) :
+    mul q.length dep (ofIvl q.length a b) (ofDist q) = .ok ⟨q.map (a * ·), q.map (b * ·)⟩ := by
+  have hn : 0 < q.length := List.length_pos_of_ne_nil hne
+  have hw := wf_scale q hq hpos a b ha hab
+  rcases hd with h | h <;> subst h
+  · have s1 : straddlesZero (ofIvl q.length a b) = false := by
+      rw [straddlesZero_ofIvl _ _ _ hn]; simp [not_lt.mpr ha]
+    have s2 : straddlesZero (ofDist q) = false := by
+      have := (minL_spec 0 q hne).1
+      simp [straddlesZero, ofDist, not_lt.mpr (le_of_lt (hpos _ this))]
+    have s3 : ¬ hi (ofDist q) ≤ 0 := by
+      have : q.getLastD 0 ∈ q := by
+        rw [List.getLastD_eq_getLast?, List.getLast?_eq_some_getLast hne]; exact List.getLast_mem hne
+      exact not_le.mpr (hpos _ this)
+    simp only [mul, frechetMul, s1, s2, Bool.or_self, Bool.false_eq_true, if_false, frechetMulNoStraddle,
+      hi_ofIvl _ _ _ hn, not_le.mpr hb, s3, decide_false, classicFrechet, frechetOp]
+    simp only [ofIvl, ofDist]
+    rw [frechetLeftRaw_constL (· * ·) a q hq (fun x y h => mul_le_mul_of_nonneg_left h ha),
+      frechetRightRaw_constL (· * ·) b q hq (fun x y h => mul_le_mul_of_nonneg_left h (le_trans ha hab)),
+      sortR_of_sorted _ hw.lsorted, sortR_of_sorted _ hw.rsorted]
+    exact mk_wf _ false _ _ hw
+  · simp only [mul, perfectOp, cornerPair, ofIvl, ofDist, zipWith_replicate_left]
+    rw [zip4_map, zip4_map]
+    have e1 : q.map (fun v => min4 (a * v) (a * v) (b * v) (b * v)) = q.map (a * ·) := by
+      apply List.map_congr_left
+      intro v hv
+      have : a * v ≤ b * v := mul_le_mul_of_nonneg_right hab (le_of_lt (hpos v hv))
+      simp [min4, this]
+    have e2 : q.map (fun v => max4 (a * v) (a * v) (b * v) (b * v)) = q.map (b * ·) := by
+      apply List.map_congr_left
+      intro v hv
+      have : a * v ≤ b * v := mul_le_mul_of_nonneg_right hab (le_of_lt (hpos v hv))
+      simp [max4, this]
+    simp only [e1, e2]
+    rw [sortR_of_sorted _ hw.lsorted, sortR_of_sorted _ hw.rsorted]
+    exact mk_wf _ false _ _ hw
+
+example : mul 3 .f (ofIvl 3 1 2) (ofDist [1, 5, 7]) = .ok ⟨[1, 5, 7], [2, 10, 14]⟩ := by
+  have := ivl_dist_scale [1, 5, 7] (by decide) (by decide) (by decide) 1 2 (by norm_num) (by norm_num) (by norm_num) .f (Or.inl rfl)
+  norm_num at this; exact this
+
+
+/-! ## ★ the dispatch graph and "convert every operand first" -/
+
+/-- the dispatch of `l op r` by operand kinds is the finite table `route` -/
+theorem evalOp_route (n : Nat) (d : Dep) (o : Op) (l r : Opd) :
+    evalOp n d o l r =
+      match route l.kind o r.kind with
+      | .native => lowOp o l r
+      | .interval => lowOp o l r
+      | .pboxRefl => (convertPbox n r >>= fun p => reflected n o d l p >>= fun z => pure (.pbox z))
+      | .pboxFwd => (convertPbox n l >>= fun p => method n o d p r >>= fun z => pure (.pbox z)) := by
+  cases l <;> cases r <;> rfl
+
+/-- every pair with at least one p-box-like operand is routed through a p-box method; only
+number / interval pairs stay in the simpler calculus -/
+theorem route_total (l r : Kind) (o : Op) :
+    (route l o r = .pboxFwd ↔ isLow l = false) ∧
+    (route l o r = .pboxRefl ↔ (isLow l = true ∧ isLow r = false)) ∧
+    (route l o r = .native ↔ (l = .num ∧ r = .num)) := by
+  cases l <;> cases r <;> cases o <;> decide
+
+/-- operands the library can build: ordered interval, well-formed bounds, sorted quantile list -/
+def ValidOpd (n : Nat) : Opd → Prop
+  | .num _ => True
+  | .ivl a b => a ≤ b
+  | .pbox p => WF n p
+  | .dist q => q.length = n ∧ q.Pairwise (· ≤ ·)
+  | .dss p => WF n p
+
+def isHigh : Opd → Bool
+  | .pbox _ => true | .dist _ => true | .dss _ => true | _ => false
+
+theorem convert_high (n : Nat) (l : Opd) (hl : isHigh l = true) :
+    ∃ P, convertPbox n l = .ok P ∧ convert n l = .ok P := by
+  cases l with
+  | num c => simp [isHigh] at hl
+  | ivl a b => simp [isHigh] at hl
+  | pbox p => exact ⟨p, rfl, rfl⟩
+  | dist q => exact ⟨ofDist q, rfl, rfl⟩
+  | dss p => exact ⟨p, rfl, rfl⟩
+
+theorem convert_high_wf (n : Nat) (l : Opd) (hl : isHigh l = true) (hv : ValidOpd n l) :
+    ∃ P, convertPbox n l = .ok P ∧ convert n l = .ok P ∧ WF n P := by
+  cases l with
+  | num c => simp [isHigh] at hl
+  | ivl a b => simp [isHigh] at hl
+  | pbox p => exact ⟨p, rfl, rfl, hv⟩
+  | dist q => exact ⟨ofDist q, rfl, rfl, by obtain ⟨h1, h2⟩ := hv; subst h1; exact wf_ofDist q h2⟩
+  | dss p => exact ⟨p, rfl, rfl, hv⟩
+
+/-- `P.<op>(Y)` for a p-box-like `Y` is the p-box operation on the converted `Y` -/
+theorem method_high (n : Nat) (d : Dep) (o : Op) (P : PB) (r : Opd) (hr : isHigh r = true) (Y z : PB)
+    (hY : convertPbox n r = .ok Y) (h : binop n o d P Y = .ok z) : method n o d P r = .ok z := by
+  have hnn : ∀ c, r ≠ .num c := by intro c e; subst e; simp [isHigh] at hr
+  have hneg : negOpd n r = (neg n Y >>= fun t => pure (.pbox t)) := by
+    cases r with
+    | num c => simp [isHigh] at hr
+    | ivl a b => simp [isHigh] at hr
+    | pbox p => simp only [convertPbox] at hY; injection hY with hY; subst hY; rfl
+    | dist q => simp only [convertPbox] at hY; injection hY with hY; subst hY; rfl
+    | dss p => simp only [convertPbox] at hY; injection hY with hY; subst hY; rfl
+  have hone : oneOver n r = (oneOverPB n Y >>= fun t => pure (.pbox t)) := by
+    cases r with
+    | num c => simp [isHigh] at hr
+    | ivl a b => simp [isHigh] at hr
+    | pbox p => simp only [convertPbox] at hY; injection hY with hY; subst hY; rfl
+    | dist q => simp only [convertPbox] at hY; injection hY with hY; subst hY; rfl
+    | dss p => simp only [convertPbox] at hY; injection hY with hY; subst hY; rfl
+  have hadd : ∀ dd, pboxAdd n dd P r = add n dd P Y := by
+    intro dd
+    cases r with
+    | num c => simp [isHigh] at hr
+    | ivl a b => simp [isHigh] at hr
+    | pbox p => simp only [pboxAdd, hY, ok_bind]
+    | dist q => simp only [pboxAdd, hY, ok_bind]
+    | dss p => simp only [pboxAdd, hY, ok_bind]
+  have hmul : ∀ dd, pboxMul n dd P r = mul n dd P Y := by
+    intro dd
+    cases r with
+    | num c => simp [isHigh] at hr
+    | ivl a b => simp [isHigh] at hr
+    | pbox p => simp only [pboxMul, hY, ok_bind]
+    | dist q => simp only [pboxMul, hY, ok_bind]
+    | dss p => simp only [pboxMul, hY, ok_bind]
+  cases o with
+  | add => simp only [method, hadd]; exact h
+  | mul => simp only [method, hmul]; exact h
+  | sub =>
+    simp only [binop, PBox.sub] at h
+    simp only [method, pboxSub, hneg]
+    cases hn : neg n Y with
+    | error e => rw [hn] at h; cases h
+    | ok ny =>
+      rw [hn, ok_bind] at h
+      simp only [ok_bind, pure, Except.pure, pboxAdd, convertPbox]
+      exact h
+  | div =>
+    simp only [binop, PBox.div] at h
+    simp only [method, pboxDiv, hone, oneOverPB]
+    cases hr1 : recip n Y with
+    | error e => rw [hr1] at h; cases h
+    | ok r1 =>
+      rw [hr1, ok_bind] at h
+      cases hr2 : numberOp n (· * ·) r1 1 with
+      | error e => rw [hr2] at h; cases h
+      | ok r2 =>
+        rw [hr2, ok_bind] at h
+        simp only [ok_bind, hr2, tryType, pure, Except.pure, pboxMul, convertPbox]
+        exact h
+
+/-- `P.<op>(Interval)`: the interval is negated / inverted by INTERVAL arithmetic before it is
+converted; the result is the p-box operation on the converted interval -/
+theorem method_ivl (n : Nat) (hn : 0 < n) (d : Dep) (o : Op) (P : PB) (a b : Rat) (hab : a ≤ b)
+    (h0 : o = .div → (0 < a ∨ b < 0)) :
+    method n o d P (.ivl a b) = binop n o d P (ofIvl n a b) := by
+  cases o with
+  | add => simp only [method, pboxAdd, convertPbox, ivlToPbox_eq n a b hn hab, ok_bind, binop]
+  | mul => simp only [method, pboxMul, convertPbox, ivlToPbox_eq n a b hn hab, ok_bind, binop]
+  | sub =>
+    simp only [method, pboxSub, negOpd, ok_bind, pboxAdd, convertPbox, binop, PBox.sub,
+      ivlToPbox_eq n (-b) (-a) hn (by linarith), neg_ofIvl n a b hn hab]
+  | div =>
+    have h0' := h0 rfl
+    have hz : ¬ (a ≤ 0 ∧ b ≥ 0) := by rintro ⟨h1, h2⟩; rcases h0' with h | h <;> linarith
+    have hle := one_div_anti a b hab h0'
+    simp only [method, pboxDiv, oneOver, hz, if_false, ok_bind, pboxMul, convertPbox, binop, PBox.div,
+      ivlToPbox_eq n (1/b) (1/a) hn hle, recip_ofIvl n a b hn hab h0', numberOp_ofIvl n _ _ _ _ hn, mul_one,
+      min_eq_left hle, max_eq_right hle]
+
+/-- `P / Interval` with zero in the interval raises `ZeroDivisionError` (interval arithmetic rejects it
+before any p-box is built) -/
+theorem method_div_zero (n : Nat) (d : Dep) (P : PB) (a b : Rat) (hz : a ≤ 0 ∧ 0 ≤ b) :
+    method n .div d P (.ivl a b) = .error .ZeroDivision := by
+  simp [method, pboxDiv, oneOver, hz.1, hz.2]
+
+/-- **Mixed expression = converted-first expression, left operand p-box-like** (`Pbox op Interval`,
+`Pbox op Distribution`, `DSS op Pbox`, `Distribution op DSS`, …, all four operations, any dependency
+code): whenever the converted-first expression returns `z`, so does the mixed expression. -/
+theorem fwd_agrees (n : Nat) (hn : 0 < n) (d : Dep) (o : Op) (l r : Opd) (hl : isHigh l = true)
+    (hr : match r with
+      | .num _ => False
+      | .ivl a b => a ≤ b ∧ (o = .div → (0 < a ∨ b < 0))
+      | _ => True)
+    (z : PB) (h : spec n d o l r = .ok z) : evalOp n d o l r = .ok (.pbox z) := by
+  obtain ⟨P, hP1, hP2⟩ := convert_high n l hl
+  have hev : evalOp n d o l r = (method n o d P r >>= fun t => pure (.pbox t)) := by
+    cases l with
+    | num c => simp [isHigh] at hl
+    | ivl a b => simp [isHigh] at hl
+    | pbox p => simp only [convertPbox] at hP1; injection hP1 with e; subst e; cases r <;> rfl
+    | dist q => simp only [convertPbox] at hP1; injection hP1 with e; subst e; cases r <;> rfl
+    | dss p => simp only [convertPbox] at hP1; injection hP1 with e; subst e; cases r <;> rfl
+  rw [hev]
+  simp only [spec, hP2, ok_bind] at h
+  cases r with
+  | num c => exact absurd hr id
+  | ivl a b =>
+    simp only [convert, convertPbox, ivlToPbox_eq n a b hn hr.1, ok_bind] at h
+    rw [method_ivl n hn d o P a b hr.1 hr.2, h]; rfl
+  | pbox p =>
+    simp only [convert, convertPbox, ok_bind] at h
+    rw [method_high n d o P (.pbox p) rfl p z rfl h]; rfl
+  | dist q =>
+    simp only [convert, convertPbox, ok_bind] at h
+    rw [method_high n d o P (.dist q) rfl (ofDist q) z rfl h]; rfl
+  | dss p =>
+    simp only [convert, convertPbox, ok_bind] at h
+    rw [method_high n d o P (.dss p) rfl p z rfl h]; rfl
+
+/-- **`Interval + X`** (reflected operator `X.__radd__`) for a p-box-like `X`, Frechet / perfect /
+opposite: equal to the converted-first sum, and both are `X` shifted by the interval -/
+theorem refl_add_agrees (n : Nat) (hn : 0 < n) (d : Dep) (hd : d = .f ∨ d = .p ∨ d = .o) (a b : Rat) (hab : a ≤ b)
+    (r : Opd) (hr : isHigh r = true) (hv : ValidOpd n r) :
+    ∃ Q, convertPbox n r = .ok Q ∧
+      evalOp n d .add (.ivl a b) r = .ok (.pbox ⟨Q.left.map (a + ·), Q.right.map (b + ·)⟩) ∧
+      spec n d .add (.ivl a b) r = .ok ⟨Q.left.map (a + ·), Q.right.map (b + ·)⟩ := by
+  obtain ⟨Q, hQ1, hQ2, hw⟩ := convert_high_wf n r hr hv
+  refine ⟨Q, hQ1, ?_, ?_⟩
+  · have : evalOp n d .add (.ivl a b) r = (convertPbox n r >>= fun p => reflected n .add d (.ivl a b) p >>= fun t => pure (.pbox t)) := by
+      cases r <;> first | rfl | (simp [isHigh] at hr)
+    rw [this, hQ1, ok_bind]
+    simp only [reflected, pboxAdd, convertPbox, ivlToPbox_eq n a b hn hab, ok_bind, add_const_right n d hd a b hab Q hw]
+    rfl
+  · have e1 : convert n (.ivl a b) = .ok (ofIvl n a b) := ivlToPbox_eq n a b hn hab
+    simp only [spec, e1, hQ2, ok_bind, binop]
+    exact add_const_left n d hd a b hab Q hw
+
+/-- **`Interval - X`** (reflected operator: `(-X).add(Interval)` with the dependency NOT exchanged)
+against the converted-first difference (`Interval.add(-X)` with `p ↔ o` exchanged): equal, because a
+constant operand makes perfect and opposite pairing coincide -/
+theorem refl_sub_agrees (n : Nat) (hn : 0 < n) (d : Dep) (hd : d = .f ∨ d = .p ∨ d = .o) (a b : Rat) (hab : a ≤ b)
+    (r : Opd) (hr : isHigh r = true) (hv : ValidOpd n r) :
+    ∃ z, evalOp n d .sub (.ivl a b) r = .ok (.pbox z) ∧ spec n d .sub (.ivl a b) r = .ok z := by
+  obtain ⟨Q, hQ1, hQ2, hw⟩ := convert_high_wf n r hr hv
+  obtain ⟨hneg, hwn⟩ := neg_wf n Q hw
+  have hd' : swapPO d = .f ∨ swapPO d = .p ∨ swapPO d = .o := by
+    rcases hd with h | h | h <;> subst h <;> simp [swapPO]
+  refine ⟨⟨((Q.right.map (- ·)).reverse).map (a + ·), ((Q.left.map (- ·)).reverse).map (b + ·)⟩, ?_, ?_⟩
+  · have : evalOp n d .sub (.ivl a b) r = (convertPbox n r >>= fun p => reflected n .sub d (.ivl a b) p >>= fun t => pure (.pbox t)) := by
+      cases r <;> first | rfl | (simp [isHigh] at hr)
+    rw [this, hQ1, ok_bind]
+    simp only [reflected, hneg, ok_bind, pboxAdd, convertPbox, ivlToPbox_eq n a b hn hab,
+      add_const_right n d hd a b hab _ hwn]
+    rfl
+  · have e1 : convert n (.ivl a b) = .ok (ofIvl n a b) := ivlToPbox_eq n a b hn hab
+    simp only [spec, e1, hQ2, ok_bind, binop, PBox.sub, hneg]
+    exact add_const_left n (swapPO d) hd' a b hab _ hwn
+
+/-! ## the full statement and what is proved of it -/
+
+/-- divisor operands that the property covers: no zero inside -/
+def DivisorOk (o : Op) : Opd → Prop
+  | .num c => o = .div → c ≠ 0
+  | .ivl a b => o = .div → (0 < a ∨ b < 0)
+  | .pbox p => o = .div → ((∀ v ∈ p.left, 0 < v) ∨ (∀ v ∈ p.right, v < 0))
+  | .dist q => o = .div → ((∀ v ∈ q, 0 < v) ∨ (∀ v ∈ q, v < 0))
+  | .dss p => o = .div → ((∀ v ∈ p.left, 0 < v) ∨ (∀ v ∈ p.right, v < 0))
+
+/-- **C07, dispatch part, full strength**: for every pair of valid operands of which at least one is
+p-box-like, every operation and dependency, the mixed expression returns exactly the p-box of the
+expression with every operand converted first. -/
+def C07RouteStatement : Prop :=
+  ∀ (n : Nat) (_ : 0 < n) (d : Dep) (_ : d ≠ .unknown) (o : Op) (l r : Opd),
+    ValidOpd n l → ValidOpd n r → (isHigh l = true ∨ isHigh r = true) → DivisorOk o r →
+    ∃ z, spec n d o l r = .ok z ∧ evalOp n d o l r = .ok (.pbox z)
+
+/-- what is proved of `C07RouteStatement`: (1) left operand p-box-like and right operand an interval or
+p-box-like — all operations, all dependencies (conditional on the converted-first expression
+answering); (2) `Interval + X`, `Interval - X` for p-box-like `X` under f / p / o.
+Missing: `Interval * X`, `Interval / X`, number operands on either side, dependency `i` in (2), and
+totality (`spec` answers on all valid operands). -/
+theorem route_agrees_partial :
+    (∀ (n : Nat) (_ : 0 < n) (d : Dep) (o : Op) (l r : Opd), isHigh l = true →
+      (match r with
+        | .num _ => False
+        | .ivl a b => a ≤ b ∧ (o = .div → (0 < a ∨ b < 0))
+        | _ => True) →
+      ∀ z, spec n d o l r = .ok z → evalOp n d o l r = .ok (.pbox z)) ∧
+    (∀ (n : Nat) (_ : 0 < n) (d : Dep) (_ : d = .f ∨ d = .p ∨ d = .o) (o : Op) (_ : o = .add ∨ o = .sub)
+      (a b : Rat) (_ : a ≤ b) (r : Opd), isHigh r = true → ValidOpd n r →
+      ∃ z, evalOp n d o (.ivl a b) r = .ok (.pbox z) ∧ spec n d o (.ivl a b) r = .ok z) := by
+  refine ⟨fun n hn d o l r hl hr z h => fwd_agrees n hn d o l r hl hr z h, ?_⟩
+  intro n hn d hd o ho a b hab r hr hv
+  rcases ho with h | h <;> subst h
+  · obtain ⟨Q, _, h1, h2⟩ := refl_add_agrees n hn d hd a b hab r hr hv
+    exact ⟨_, h1, h2⟩
+  · exact refl_sub_agrees n hn d hd a b hab r hr hv
+
+/-- non-vacuity: a concrete mixed expression meets the hypotheses -/
+example : ∃ z, evalOp 2 .p .sub (.ivl 1 2) (.dist [0, 5]) = .ok (.pbox z) ∧
+    spec 2 .p .sub (.ivl 1 2) (.dist [0, 5]) = .ok z :=
+  refl_sub_agrees 2 (by decide) .p (Or.inr (Or.inl rfl)) 1 2 (by norm_num) (.dist [0, 5]) rfl ⟨rfl, by decide⟩
+
+example : ValidOpd 2 (.dist [0, 5]) := ⟨rfl, by decide⟩
+
+
 end Pun.Hier
